@@ -42,4 +42,5 @@ import TFV.Properties.Src.GPTrial
 #print axioms TFV.SrcTie.C08_src_full_growing_method
 #print axioms TFV.SrcTie.C08_src_growing_method
 #print axioms TFV.SrcTie.C08_src_init_closed
+#print axioms TFV.SrcTie.C08_src_random_tree
 #print axioms TFV.SrcTie.C08_src_gp_offspring
